@@ -11,6 +11,8 @@
                            order, IEEE primitives as a parameter), and that value again fits 64 bits;
   * `undefined_rejected`   an operator application whose value is undefined is refused;
   * `shl_accepts_exactly_representable`  the shift-back test of the repaired `<<` (F8) is exact;
+  * `string_literal_value` a string literal accepted by `parse_string`/`unescape_char` has its ECMAScript string value
+                           (all escape forms; line continuations, legacy octal, lone surrogates are over-rejected, never mis-read);
   * `int_text_roundtrip`   the decimal text written into the `.ui` for an integer reads back as that integer;
   * witnesses for the behaviour before the repairs of F6 and F8.
   The composition over whole expressions (walk + builder + `evaluate_code` + `.ui` serialisation) is tied by the
@@ -122,7 +124,25 @@ theorem literal_value (floatOk : List Char → Bool) (s : List Char) (v : Nat) (
 theorem int_text_roundtrip (v : Int) : QV.Spec.Ecma.readInt (QV.Model.Literal.formatInt v) = some v :=
   QV.Proofs.Literal.readInt_formatInt v
 
+/-- a string literal `parse_string` accepts has the ECMAScript string value (UTF-16 code units); the escape texts
+    contain no sign character, which the lexer's escape pattern guarantees (`u32::from_str_radix` would accept `+41`) -/
+theorem string_literal_value (segs : List QV.Model.Literal.Segment) (s : List Char)
+    (hs : QV.Proofs.Literal.signFree segs) (h : QV.Model.Literal.parseString segs = some s) :
+    QV.Spec.Ecma.stringValue (segs.map QV.Proofs.Literal.toSeg) = some (QV.Spec.Ecma.units16 s) :=
+  QV.Proofs.Literal.parseString_sound segs s hs h
+
+/-- the hypothesis about signs is needed: the decoder alone would read `\\u{+41}` as `A` -/
+theorem sign_hypothesis_needed :
+    QV.Model.Literal.unescapeChar "\\u{+41}".toList = some 'A' ∧ QV.Spec.Ecma.escapeValue "\\u{+41}".toList = none := by
+  decide
+
 /-! non-vacuity: the hypotheses are met by ordinary inputs -/
+example : QV.Model.Literal.parseString [.fragment "a".toList, .escape "\\n".toList, .escape "\\u{1F600}".toList] =
+    some ['a', '\n', Char.ofNat 0x1F600] := by decide
+example : QV.Spec.Ecma.escapeValue ['\\', '\n'] = some [] ∧ QV.Model.Literal.unescapeChar ['\\', '\n'] = none := by decide
+example : QV.Spec.Ecma.escapeValue "\\1".toList = some [1] ∧ QV.Model.Literal.unescapeChar "\\1".toList = none := by decide
+example : QV.Spec.Ecma.escapeValue "\\uD83D".toList = some [55357] ∧ QV.Model.Literal.unescapeChar "\\uD83D".toList = none := by
+  decide
 example : QV.Spec.Ecma.mv "0x1_F".toList = some 31 := by decide
 example : QV.Spec.Ecma.mv "0777".toList = some 511 := by decide
 example : QV.Spec.Ecma.mv "089".toList = some 89 := by decide
